@@ -145,7 +145,9 @@ func All() []Seed { return append(Repo(), Built()...) }
 // Hostile returns tiny hand-built malformed files that sit on known parser edges.
 func Hostile() []Seed {
 	var out []Seed
-	add := func(name string, d []byte) { out = append(out, Seed{Name: "hostile/" + name, Data: d, Map: build.Parse(d), Kind: kindOf(d)}) }
+	add := func(name string, d []byte) {
+		out = append(out, Seed{Name: "hostile/" + name, Data: d, Map: build.Parse(d), Kind: kindOf(d)})
+	}
 	for n := 0; n <= 5; n++ { // SOF payload shorter than the 5 bytes the reader indexes
 		d := []byte{0xFF, 0xD8, 0xFF, 0xC0, 0, byte(2 + n)}
 		d = append(d, make([]byte, n)...)
@@ -178,12 +180,12 @@ func Hostile() []Seed {
 	add("png-iccp-before-ihdr", append(append(append([]byte(nil), build.PNGSig...), 0, 0, 0, 4, 'i', 'C', 'C', 'P', 'a', 0, 0, 0x78, 1, 2, 3, 4), base[8:]...))
 	// PNG files (valid IHDR, valid chunk framing and CRCs) whose iCCP deflate stream is damaged in different ways
 	for name, z := range map[string][]byte{
-		"bad-zlib-header":  {0x00, 0x00, 1, 2, 3, 4, 5, 6, 7, 8, 9, 10, 11, 12, 13, 14, 15, 16, 17, 18, 19, 20},
-		"bad-zlib-header2": append([]byte{0x78, 0x9d}, make([]byte, 300)...),
-		"bad-deflate-body": {0x78, 0x9c, 0xFF, 0xFF, 0xFF, 0xFF, 1, 2, 3, 4, 5, 6, 7, 8, 9},
+		"bad-zlib-header":     {0x00, 0x00, 1, 2, 3, 4, 5, 6, 7, 8, 9, 10, 11, 12, 13, 14, 15, 16, 17, 18, 19, 20},
+		"bad-zlib-header2":    append([]byte{0x78, 0x9d}, make([]byte, 300)...),
+		"bad-deflate-body":    {0x78, 0x9c, 0xFF, 0xFF, 0xFF, 0xFF, 1, 2, 3, 4, 5, 6, 7, 8, 9},
 		"stream-then-garbage": append(zlibBytes([]byte("profile bytes profile bytes")), make([]byte, 5000)...),
-		"truncated-stream": zlibBytes(make([]byte, 3000))[:12],
-		"bad-adler": func() []byte { b := zlibBytes([]byte("abcdefgh")); b[len(b)-1] ^= 1; return b }(),
+		"truncated-stream":    zlibBytes(make([]byte, 3000))[:12],
+		"bad-adler":           func() []byte { b := zlibBytes([]byte("abcdefgh")); b[len(b)-1] ^= 1; return b }(),
 	} {
 		p := build.PNG{W: 15, H: 16, Depth: 8, ColorType: 2, Pre: []build.Chunk{{Type: "gAMA", Data: []byte{0, 0, 0xb1, 0x8f}}, build.RawICCPChunk("damaged", z), {Type: "tEXt", Data: make([]byte, 700)}}, IDAT: []byte{1, 2, 3}}
 		d, _ := p.Bytes()
